@@ -779,6 +779,18 @@ func ruleParserTables(c *Check, w *World, tb *TB, rule string) {
 	if nSplit == 0 {
 		c.Unk(rule, "otp.parser", "token-split", "no ranged split of the data-input tokens found on the path from NewRawSuite", "")
 	}
+	// no step's error is lost: every error result of a call on the parser's path is tested, returned or wrapped (an
+	// error variable overwritten by the next step before anyone looked at it accepts what the first step refused)
+	var pfs []*ssa.Function
+	for f := range reach {
+		if fnPkgPath(f) == OtpPath && f.Blocks != nil {
+			pfs = append(pfs, f)
+		}
+	}
+	sortFuncs(pfs)
+	if ruleErrorsUsed(c, w, rule, pfs) == 0 {
+		c.Unk(rule, "otp.parser", "error-used", "no fallible step found on the path from NewRawSuite", "")
+	}
 	// the digit count is the parsed number itself: no remapping of values the configuration cannot represent
 	nDig := 0
 	for f := range reach {
@@ -1083,4 +1095,62 @@ func InLoopBoundOf(lenCall *ssa.Call) bool {
 		}
 	}
 	return false
+}
+
+// ruleErrorsUsed: every error result of a call made in fns is looked at — tested, returned, wrapped or stored. An
+// error variable that the next step overwrites before anyone has read it (err := a(); err = b(); if err != nil)
+// makes what the first step refuses pass. Returns the number of fallible calls examined.
+func ruleErrorsUsed(c *Check, w *World, rule string, fns []*ssa.Function) int {
+	nErr := 0
+	for _, f := range fns {
+		EachInstr(f, func(in ssa.Instruction) {
+			cl, ok := in.(*ssa.Call)
+			if !ok {
+				return
+			}
+			var ev ssa.Value
+			switch t := cl.Type().(type) {
+			case *types.Tuple:
+				hasErr := false
+				for i := 0; i < t.Len(); i++ {
+					if isErrorType(t.At(i).Type()) {
+						hasErr = true
+					}
+				}
+				if !hasErr {
+					return
+				}
+				if cl.Referrers() != nil {
+					for _, r := range *cl.Referrers() {
+						if ex, isEx := r.(*ssa.Extract); isEx && isErrorType(ex.Type()) {
+							ev = ex
+						}
+					}
+				}
+			default:
+				if !isErrorType(cl.Type()) {
+					return
+				}
+				ev = cl
+			}
+			name := CalleeName(cl.Common())
+			if strings.HasPrefix(name, "fmt.Errorf") || strings.HasPrefix(name, "errors.") {
+				return // constructing an error, not a step that can fail
+			}
+			if name == "(hash.Hash).Write" || strings.HasPrefix(name, "(*strings.Builder).Write") || strings.HasPrefix(name, "(*bytes.Buffer).Write") {
+				return // documented never to return an error
+			}
+			nErr++
+			used := false
+			if ev != nil && ev.Referrers() != nil {
+				for _, r := range *ev.Referrers() {
+					if _, isDbg := r.(*ssa.DebugRef); !isDbg {
+						used = true
+					}
+				}
+			}
+			c.Decide(used, rule, FuncName(f), "error-used:"+name, "the error of this step is tested, returned or wrapped", "the error returned by "+name+" is never looked at (overwritten or dropped): what this step refuses is accepted", w.InstrPos(in))
+		})
+	}
+	return nErr
 }
